@@ -22,7 +22,7 @@ def run_unbuffered_seek(chk, F):
             ok = r[0] == "agg" and r[3] == "Ok" and cc.strip_casts(r[4][0]) == K and not [e for e in ps[0].events if e[0] == "store"]
         elif ok and nm == "set_bit_pos":
             st = [(e[1], e[2]) for e in ps[0].events if e[0] == "store"]
-            ok = st == [(K, ("arg", 2, "bit_index"))] and ps[0].ret[0] == "agg" and ps[0].ret[3] == "Ok"
+            ok = st == [(K, ("arg", 2, "arg2"))] and ps[0].ret[0] == "agg" and ps[0].ret[3] == "Ok"
         chk.expect("S.bitreader", "%s|%s" % ((b.get("impl_self") or "")[:60], nm), ok, "%s is not the plain bit_index accessor" % b["path"])
 
 
